@@ -136,6 +136,11 @@ def r2_pump(chk, fx, b):
             enum = s["rv"].get("enum")
             watch = None
             if ty in ("std::option::Option<russh::ChannelMsg>", "std::option::Option<bytes::Bytes>"):
+                # the outcome of awaiting a queue / the channel inside select! — not the Option a private helper of this crate returned
+                org = b.backward_origins(pl["l"], through_call=lambda c: False)
+                from_helper = any(o["k"] == "call" and o["call"] is not None and ((o["call"].rdef in fx.mir) or (o["call"].defn in fx.mir)) for o in org)
+                if from_helper:
+                    continue
                 watch = ("None", 0)
             elif enum == "russh::ChannelMsg":
                 idx = [v for v, nme in s["rv"]["vars"] if nme == "Eof"]
@@ -217,20 +222,22 @@ def r3_propagation(chk, fx):
     e = b.ok_edge_of(sd[0])
     chk.instance("C07/R3", "ClientMsg::send: the transport's send result is returned or `?`-checked", b.name, sd[0].loc(),
                  holds=ret_ok or e is not None, key="C07/R3 ClientMsg::send result-dropped")
-    # SSH receiver: queue closure -> Error::DequeueMessage
+    # SSH receiver: queue closure -> Error::DequeueMessage (abstract interpretation: recv() None => Err(DequeueMessage), Some(m) => Ok(m))
+    from vlib import absint as A
     b = fx.user_coroutine(TC.SSH_RECEIVER)
     chk.analysed(b.name)
     rc = b.calls_to("mpsc::Receiver::<T>::recv", user_only=True)
-    ok_or = b.calls_to("Option::<T>::ok_or", "Option::<T>::ok_or_else", user_only=True)
-    ok = False
-    if rc and ok_or:
-        t = b.forward_taint([rc[0].dest["l"]], through_call=lambda c: c.is_fn(*F.PASS_THROUGH))
-        o = ok_or[0]
-        if F.op_base(o.args[0]) in t:
-            errs = b.backward_origins(F.op_base(o.args[1])) if F.op_base(o.args[1]) is not None else []
-            agg = [x for x in errs if x["k"] == "agg" and x["rv"].get("variant") == "DequeueMessage"]
-            ret = [1 for x in b.backward_origins(0, through_call=lambda c: False)
-                   if x["k"] == "call" and x["call"] is not None and x["call"].bb == o.bb]
-            ok = bool(agg) and bool(ret)
+
+    def hook(fn, args, node, interp):
+        if T.short(fn, 2) in ("mpsc::Receiver::recv", "Receiver::recv") and "in_queue" in A.vstr(args[0]) or fn.endswith("mpsc::Receiver::<T>::recv"):
+            interp.trace.append(("call", fn, tuple(args), node.get("sp")))
+            return ("term", "async-ready", (("sym", "DEQUEUED"),))
+        return None
+    paths = A.Interp(fx, hook=hook, crates=("netconf",)).explore(b.name)
+    none = [p for p in paths if any(v == "None" for k, v in p.assume.items() if "DEQUEUED" in k and k.startswith("variant:")) or
+            any("Some" in v for k, v in p.assume.items() if "DEQUEUED" in k and k.startswith("notvariant:"))]
+    some_ = [p for p in paths if any(v == "Some" for k, v in p.assume.items() if "DEQUEUED" in k and k.startswith("variant:"))]
+    ok = bool(none) and bool(some_) and all(A.is_res(p.ret) and p.ret[2] == "Err" and "DequeueMessage" in A.vstr(p.ret) for p in none) and \
+        all(A.is_res(p.ret) and p.ret[2] == "Ok" and "DEQUEUED" in A.vstr(p.ret) for p in some_)
     chk.instance("C07/R3", "ssh Receiver::recv: closed queue (None) is returned as Err(DequeueMessage)", b.name,
                  rc[0].loc() if rc else None, holds=ok, key="C07/R3 ssh::Receiver::recv none-not-error")
